@@ -53,6 +53,11 @@ standard_library_path = os.path.normpath(
 )
 colang_path_dirs.append(standard_library_path)
 
+# ... and the folder of the `nemoguardrails` package, for `import nemoguardrails.library`
+colang_path_dirs.append(
+    os.path.normpath(os.path.join(os.path.dirname(__file__), "..", "..", ".."))
+)
+
 
 class Model(BaseModel):
     """Configuration of a model used by the rails engine.
@@ -676,6 +681,63 @@ def _parse_colang_files_recursively(
     colang_version = raw_config.get("colang_version", "1.0")
     _rails_parsed_config = None
 
+    _parse_pending_colang_files(
+        raw_config, colang_files, parsed_colang_files, colang_version
+    )
+
+    if colang_version == "2.x" and _has_input_output_config_rails(raw_config):
+        # raise deprecation warning
+
+        rails_flows = _get_rails_flows(raw_config)
+        flow_definitions = "\n".join(_generate_rails_flows(rails_flows))
+
+        current_file = "INTRINSIC_FLOW_GENERATION"
+
+        _rails_parsed_config = parse_colang_file(
+            current_file, content=flow_definitions, version=colang_version
+        )
+
+        # The generated flows import the guardrails library: these imports are loaded
+        # like the imports of any other file.
+        _join_config(
+            raw_config,
+            {"import_paths": _rails_parsed_config.get("import_paths", [])},
+        )
+        try:
+            _load_imported_paths(raw_config, colang_files)
+        except ValueError as e:
+            raise ColangParsingError(
+                f"Error while loading the imports of the flows generated for the rails in the config: {e}"
+            ) from e
+        _parse_pending_colang_files(
+            raw_config, colang_files, parsed_colang_files, colang_version
+        )
+
+        _DOCUMENTATION_LINK = "https://docs.nvidia.com/nemo/guardrails/colang_2/getting_started/dialog-rails.html"  # Replace with the actual documentation link
+
+        warnings.warn(
+            "Configuring input/output rails in config.yml is deprecated. "
+            "Please use the new flow-based configuration instead. "
+            f"For more information, please refer to the documentation at {_DOCUMENTATION_LINK}. "
+            f"Here is the expected usage:\n{flow_definitions}",
+            FutureWarning,
+        )
+
+    if _rails_parsed_config:
+        parsed_colang_files.append(_rails_parsed_config)
+    # To allow overriding of elements from imported paths, we need to merge the
+    # parsed data in reverse order.
+    for file_parsed_data in reversed(parsed_colang_files):
+        _join_config(raw_config, file_parsed_data)
+
+
+def _parse_pending_colang_files(
+    raw_config: dict,
+    colang_files: List[Tuple[str, str]],
+    parsed_colang_files: List[dict],
+    colang_version: str,
+):
+    """Parse the Colang files that have not been parsed yet, and load their imports."""
     # We start parsing the colang files one by one, and if we have
     # new import paths, we continue to update
     while len(parsed_colang_files) != len(colang_files):
@@ -720,35 +782,6 @@ def _parse_colang_files_recursively(
                         f"Error while loading the imports of Colang file: {current_path}\n{e}"
                     ) from e
                 raise
-
-    if colang_version == "2.x" and _has_input_output_config_rails(raw_config):
-        # raise deprecation warning
-
-        rails_flows = _get_rails_flows(raw_config)
-        flow_definitions = "\n".join(_generate_rails_flows(rails_flows))
-
-        current_file = "INTRINSIC_FLOW_GENERATION"
-
-        _rails_parsed_config = parse_colang_file(
-            current_file, content=flow_definitions, version=colang_version
-        )
-
-        _DOCUMENTATION_LINK = "https://docs.nvidia.com/nemo/guardrails/colang_2/getting_started/dialog-rails.html"  # Replace with the actual documentation link
-
-        warnings.warn(
-            "Configuring input/output rails in config.yml is deprecated. "
-            "Please use the new flow-based configuration instead. "
-            f"For more information, please refer to the documentation at {_DOCUMENTATION_LINK}. "
-            f"Here is the expected usage:\n{flow_definitions}",
-            FutureWarning,
-        )
-
-    if _rails_parsed_config:
-        parsed_colang_files.append(_rails_parsed_config)
-    # To allow overriding of elements from imported paths, we need to merge the
-    # parsed data in reverse order.
-    for file_parsed_data in reversed(parsed_colang_files):
-        _join_config(raw_config, file_parsed_data)
 
 
 class RailsConfig(BaseModel):
